@@ -128,6 +128,14 @@ func Spawn(fn func()) {
 	}()
 }
 
+// MaxPoints bounds the scheduling decisions of one execution.
+var MaxPoints = 2000000
+
+// Tainted is set when an execution was abandoned (step timeout or point budget): its goroutines are
+// still alive and may reach a scheduling point later, so further controlled executions in this
+// process cannot be trusted; the caller stops exploring.
+var Tainted bool
+
 // OnRunStart is called at the beginning of every controlled execution (the
 // sync shim uses it to forget cooperative lock state left by an aborted one).
 var OnRunStart func()
@@ -184,7 +192,15 @@ func Run(bodies []func() any, prefix []int, stepTimeout time.Duration) (*Exec, e
 		}
 		x.Threads = len(r.threads)
 		if len(enabled) == 0 {
-			if unfinished > 0 {
+			// a deadlock only if a TOP-LEVEL body cannot finish: goroutines the code under test
+			// started for itself may legitimately stay parked for ever (a worker pool)
+			topUnfinished := false
+			for i := 0; i < n; i++ {
+				if !r.threads[i].done {
+					topUnfinished = true
+				}
+			}
+			if unfinished > 0 && topUnfinished {
 				for i, t := range r.threads {
 					if !t.done {
 						x.Deadlock += fmt.Sprintf("thread %d waits at %s; ", i, t.site)
@@ -192,6 +208,14 @@ func Run(bodies []func() any, prefix []int, stepTimeout time.Duration) (*Exec, e
 				}
 			}
 			break
+		}
+		if len(x.Points) >= MaxPoints {
+			// a thread that spins on an atomic / TryLock reaches scheduling points for ever: this
+			// scheduler has no fairness, so such code is not explorable here (not a verdict)
+			x.Hung = true
+			x.HungSite = fmt.Sprintf("%s (point budget of %d decisions exhausted: a spinning thread?)", lastSite, MaxPoints)
+			Tainted = true
+			return x, nil
 		}
 		k := len(x.Points)
 		choice := 0
@@ -218,6 +242,7 @@ func Run(bodies []func() any, prefix []int, stepTimeout time.Duration) (*Exec, e
 		case <-time.After(stepTimeout):
 			x.Hung = true
 			x.HungSite = lastSite
+			Tainted = true
 			return x, nil
 		}
 	}
